@@ -533,8 +533,10 @@ def check_lex(rng, n_cases):
         except ec.SexpError:
             indep = None
         got = None if mr == 'none' else parse_model_sexp(mr.split(' '))
-        # the real tokenizer drops \n \r inside strings; the independent reader keeps them
-        if indep is not None and '\n' not in text and '\r' not in text and got != indep:
+        # only for documents inside the theorem's domain: outside it (a double quote inside a string
+        # or newlines in strings) the real tokenizer glues / drops characters the independent reader
+        # treats differently - that is a property of the tokenizer, shown by the Examples of C05.v
+        if pr.startswith('1 ') and indep is not None and got != indep:
             bad.append({'mechanism': 'read', 'command': text, 'model': repr(got), 'implementation': repr(indep)})
     return n1 + n2, bad, stats
 
